@@ -22,9 +22,13 @@ fn state() -> (PCtx, POut, u8, usize, u16) {
     vsym!(w_map: u16);
     let kind = w_kind % 4;
     let lines = (w_lines % 4) as usize;
+    vsym!(w_last: u8);
     let mut i = 0;
     while i < lines {
-        out.code.push(String::new());
+        // the most recently emitted line is one of a few representative instructions (a check that
+        // looks at the previous line must not change what the next production emits)
+        let txt = if i + 1 == lines { match w_last % 4 { 0 => "", 1 => "jmp v", 2 => "ret", _ => "hlt" } } else { "" };
+        out.code.push(txt.to_owned());
         i += 1;
     }
     match kind {
